@@ -337,6 +337,33 @@ vm_harness! {
 }
 vm_harness! {
     #[kani::unwind(4)]
+    fn c09_channel_handle_in_flight_keeps_queue() {
+        // A channel sent through a channel: the handle in flight must keep the inner channel's queue -- and the values already written
+        // to it -- alive when every task-side handle disappears before the outer read (the writer finished and its heap was released).
+        let mut w = mk_thread(chan_prog(), vec![], vec![]);
+        let mut r = mk_thread(chan_prog(), vec![], vec![]);
+        let inner = Value::from(ChannelObject::new(&mut w));
+        let v = sym_val(ValueTag::Int);
+        chan_ref(inner).data.lock().unwrap().push_back(ChannelValue::Scalar(v));
+        let cv = ChannelValue::from_value(inner, &mut w);
+        // the writing task goes away: releasing its channel object drops the task's handle (what ObjectHeader::dealloc does for this kind)
+        unsafe { std::ptr::drop_in_place(&mut (*(inner.0 as *mut ChannelObject)).data); }
+        let got = match cv {
+            ChannelValue::Channel(_) => cv.into_value(&mut r),
+            other => { std::mem::forget(other); panic!("a channel travels as a channel handle") }
+        };
+        assert!(got.1 == ValueTag::Channel && in_heap(&r, got), "the reader receives a channel object in its own heap");
+        let q = chan_ref(got).data.lock().unwrap();
+        assert!(q.len() == 1, "the values written before the hand-over are still queued");
+        let f = queued_scalar(&q[0]);
+        assert!(f.0 == v.0 && f.1 == v.1, "and unchanged");
+        kani::cover!(true, "req: reachable");
+        std::mem::forget(q);
+        std::mem::forget(w); std::mem::forget(r);
+    }
+}
+vm_harness! {
+    #[kani::unwind(4)]
     fn c09_written_heap_value_outlives_writer() {
         // A value travelling through a channel must not depend on the writer's lifetime: a finished task is dropped by the
         // scheduler (Runtime::finish_thread_turn) and Drop for VmGreenThread frees every object in its heap_list (C07).
